@@ -102,7 +102,8 @@ impl OperationControl for GreedyFixed {
         }
         Box::new(IntStepIterator::new(
             p,
-            -(self.len as i64),
+            // (a saturated body length must not overflow the negation)
+            -(self.len.min(i64::MAX as usize) as i64),
             position.saturating_add(self.len.saturating_mul(self.min)),
         ))
     }
